@@ -506,6 +506,27 @@ def _conversion(ctx):
                 order = [e.value for e in it.elts
                          if isinstance(e, ast.Constant)]
     if parsers is None or order is None:
+        # a table of (dimension, parser) rows consumed by one comprehension
+        for sub in K.walk_no_nested(res.node):
+            if not isinstance(sub, (ast.ListComp, ast.GeneratorExp)):
+                continue
+            rows = K.rexpr(res, sub.generators[0].iter)
+            if isinstance(rows, (ast.Tuple, ast.List)) and rows.elts and \
+                    all(isinstance(r, (ast.Tuple, ast.List)) and
+                        len(r.elts) == 2 and
+                        isinstance(r.elts[0], ast.Constant)
+                        for r in rows.elts) and \
+                    isinstance(sub.generators[0].target, ast.Tuple) and \
+                    len(sub.generators[0].target.elts) == 2:
+                kname = N.txt(sub.generators[0].target.elts[0])
+                pname = N.txt(sub.generators[0].target.elts[1])
+                elt = sub.elt
+                if isinstance(elt, ast.Call) and N.txt(elt.func) == pname \
+                        and elt.args and kname in N.txt(elt.args[0]):
+                    parsers = dict((r.elts[0].value, dotted_text(r.elts[1]))
+                                   for r in rows.elts)
+                    order = [r.elts[0].value for r in rows.elts]
+    if parsers is None or order is None:
         for sub in K.walk_no_nested(res.node):
             if isinstance(sub, ast.Return) and isinstance(
                     sub.value, (ast.List, ast.Tuple)):
@@ -527,6 +548,8 @@ def _conversion(ctx):
                         break
                     parsers[key] = dotted_text(elt.func)
                     order.append(key)
+    ctx.require(parsers is not None and order is not None,
+                'dimension -> parser table of loader.resources')
     ctx.ob('C01.5', res, None, set(parsers) == set(order) and
            len(order) == len(set(order)),
            'dimension list %s = parser table keys %s' % (
